@@ -174,7 +174,8 @@ def run_property(pid, tier="quick", seed=0, only=None, jobs=None, no_replay=Fals
         solver_secs += r.get("solver_secs", 0)
         row = {"key": r["key"], "paths": r["paths"], "paths_completed": r["paths_completed"],
                "paths_infeasible": r["paths_infeasible"], "exits": r.get("exits"), "secs": r["secs"],
-               "vcs": len(r["obligations"]), "notes": r.get("notes", [])}
+               "vcs": len(r["obligations"]), "notes": r.get("notes", []),
+               "infeasible_reasons": r.get("abort_reasons", {}), "callsites": r.get("callsites", [])}
         if r.get("describe"):
             row.update({"file": r["describe"]["file"], "sha256": r["describe"]["sha256"],
                         "lines": r["describe"]["lines"], "dropped": r["describe"]["dropped"]})
@@ -188,6 +189,11 @@ def run_property(pid, tier="quick", seed=0, only=None, jobs=None, no_replay=Fals
         if r["paths_completed"] == 0 and not r.get("unsupported") and not r.get("crashes") and \
                 not r.get("spec_errors"):
             status["vacuous"].append("%s: no path reaches an exit (contradictory precondition/contracts)" % r["key"])
+        for cs in r.get("callsites", []):
+            if cs["reached"] > 0 and cs["returns"] == 0:
+                status["vacuous"].append("%s: the call of %s at line %s can never return normally under its contract "
+                                         "(postcondition inconsistent with every caller state: contract error)" %
+                                         (r["key"], cs["callee"], cs["line"]))
         if not r["obligations"] and C.fns[r["key"]].ensures:
             status["vacuous"].append("%s: zero obligations generated" % r["key"])
         for ob in r["obligations"]:
@@ -270,6 +276,9 @@ def run_property(pid, tier="quick", seed=0, only=None, jobs=None, no_replay=Fals
                 json.dump(rec, f, indent=1, default=repr)
             if kf is not None:
                 status["known"].append((name, kf, rep_path))
+            elif ob["info"].get("weak") and not reproduced:
+                status["undecided"].append("%s: candidate counterexample (quantified assumptions instantiated) was "
+                                           "not confirmed by the native replay: %s" % (name, why))
             else:
                 status["violations"].append((name, rep_path, reproduced, why))
         elif a["undecided"]:
